@@ -4,6 +4,7 @@ CONSTANTS
   MaxEntries = 2
   BodyOf1 <- mcBody
   LiveSets <- mcLive
+  ExcludeKnown = TRUE
   EmitCases = FALSE
 INVARIANTS P_C07 P_C09 P_C10
 CHECK_DEADLOCK FALSE
